@@ -16,7 +16,7 @@ import Rooc.Proofs.RefLemmas
 import Rooc.Proofs.RatInst
 import Rooc.Proofs.Compose
 import Rooc.Proofs.ComposeExamples
-import Rooc.Proofs.ComposeSemExamples
+import Rooc.Proofs.ComposeE2EExamples
 namespace Rooc.Props.C03
 open Rooc Rooc.Sem Rooc.Ref Rooc.Exp
 
@@ -554,7 +554,7 @@ theorem c03_slow_simplex_end_to_end_partial {m : Model (Ext K)} {t : K} (ht : 0 
     {lm : LinModel (Ext K)} (h : Compile.linearize m (.fin t) maxSteps = .ok lm)
     (hm : FragModel true m m.domain) (hok : DeclOK m.domain)
     (hint : ∀ an, pipelineAnalyzer m (.fin t) maxSteps = some an → IntRangesInBox an m.domain)
-    (hW : WF lm) (hnn : ∀ d ∈ lm.domain, NNOK d.ty) (hdv : DomVars lm) (hnd : lm.vars.Nodup)
+    (hW : WF lm) (hnn : ∀ d ∈ lm.domain, ComposeSem.NNOK d.ty) (hdv : DomVars lm) (hnd : lm.vars.Nodup)
     {s : StdModel (Ext K)} (hs : standardize lm = .ok s) {T : Tab K} (hT : CanonicalFor T (stdK s))
     (stallExtra limit : Nat) (prefer : List Nat)
     (hfin : (solve (0:K) stallExtra limit prefer T).result = .ok ()) :
@@ -573,7 +573,7 @@ theorem c03_slow_simplex_unbounded_end_to_end_partial {m : Model (Ext K)} {t : K
     {lm : LinModel (Ext K)} (h : Compile.linearize m (.fin t) maxSteps = .ok lm)
     (hm : FragModel true m m.domain) (hok : DeclOK m.domain)
     (hint : ∀ an, pipelineAnalyzer m (.fin t) maxSteps = some an → IntRangesInBox an m.domain)
-    (hW : WF lm) (hnn : ∀ d ∈ lm.domain, NNOK d.ty) (hdv : DomVars lm) (hnd : lm.vars.Nodup)
+    (hW : WF lm) (hnn : ∀ d ∈ lm.domain, ComposeSem.NNOK d.ty) (hdv : DomVars lm) (hnd : lm.vars.Nodup)
     {s : StdModel (Ext K)} (hs : standardize lm = .ok s) {T : Tab K} (hT : CanonicalFor T (stdK s))
     (stallExtra limit : Nat) (prefer : List Nat)
     (hunb : (solve (0:K) stallExtra limit prefer T).result = .error .unbounded) : SrcUnbounded m :=
@@ -586,7 +586,7 @@ theorem c03_slow_simplex_infeasible_end_to_end_partial {m : Model (Ext K)} {t : 
     {lm : LinModel (Ext K)} (h : Compile.linearize m (.fin t) maxSteps = .ok lm)
     (hm : FragModel true m m.domain) (hok : DeclOK m.domain)
     (hint : ∀ an, pipelineAnalyzer m (.fin t) maxSteps = some an → IntRangesInBox an m.domain)
-    (hW : WF lm) (hnn : ∀ d ∈ lm.domain, NNOK d.ty) (hdv : DomVars lm)
+    (hW : WF lm) (hnn : ∀ d ∈ lm.domain, ComposeSem.NNOK d.ty) (hdv : DomVars lm)
     {s : StdModel (Ext K)} (hs : standardize lm = .ok s) (stallExtra limit : Nat) (prefer : List Nat)
     (hp1 : (solve (0:K) stallExtra limit prefer (phase1Tab (stdK s))).result = .ok ())
     (hneg : (solve (0:K) stallExtra limit prefer (phase1Tab (stdK s))).final.value < 0) :
